@@ -371,6 +371,25 @@ pub fn interpret(setting: &Setting, seq: &[Sym]) -> Result<usize, Fail> {
                     }
                 }
             }
+            // commitment: the documented rules are "evaluated in order on every new RTP packet"; a
+            // marker candidate "is selected immediately", a consecutive run (>= 2 sequential steps
+            // - RTP sequence numbers are modulo 2^16 - with >= 3 packets overall) "is selected":
+            // when either condition holds after this packet the latch must be committed now.
+            // (Which candidate wins is judged leniently above; that a decision is due is not ambiguous.)
+            if matching_rtp_from.is_some() && !before_latched && !after_latched && max > 0 {
+                let by_marker = cands.iter().any(|c| c.has_marker);
+                let by_run = total >= 3 && cands.iter().any(|c| c.run >= 2);
+                if by_marker || by_run {
+                    return Err(Fail::new(
+                        if by_marker { "no-commit-although-marker-rule-fired" } else { "no-commit-although-consecutive-rule-fired" },
+                        format!(
+                            "{}; candidates {:?}, total {}, max {}",
+                            ctx("a documented decision rule is satisfied after this packet but the latch is still open"),
+                            cands, total, max
+                        ),
+                    ));
+                }
+            }
             // commitment: at most `max` probation packets
             if matching_rtp_from.is_some() && !after_latched {
                 if max == 0 || total >= max {
